@@ -288,6 +288,50 @@ def target_case(rng, kind):
         jt = rng.choice(["INNER", "LEFT", "RIGHT", "FULL"] + (["CROSS"] if nk == 0 else []))
         s = {"op": "natural_join", "src": T("d1"), "b": T("d2"), "on": [[a, b] for a, b in zip(lk, rk)], "jointype": jt}
         return s, [d1, d2], {"kind": "join", "lk": lk, "rk": rk, "shared": [c for c, _ in shared], "jointype": jt}
+    if kind == "join_keys":
+        # key specifications over names BOTH tables have: crossed (a~b, b~a), chained (a~b, b~c), a renamed pair whose names are also
+        # non-key columns of the other side, same-named mixed with renamed pairs, random injective pairings; all four join types, null
+        # keys (also on both sides: marker path).  Which suffixed copies merge produces is decided pair by pair (seeded C08-m3)
+        kt = rng.choice(["int", "str"])
+        shape = rng.choice(["crossed", "chained", "overlap", "mixed", "mixed2", "random", "random"])
+        pool = ["a", "b", "c"]
+        if shape == "crossed":
+            pairs, lneed, rneed = [("a", "b"), ("b", "a")], ["a", "b"], ["a", "b"]
+        elif shape == "chained":
+            pairs, lneed, rneed = [("a", "b"), ("b", "c")], ["a", "b"], ["b", "c"]
+        elif shape == "overlap":
+            pairs, lneed, rneed = [("a", "b")], ["a", "b"], ["a", "b"]
+        elif shape == "mixed":
+            pairs, lneed, rneed = [("a", "a"), ("b", "c")], ["a", "b", "c"], ["a", "c", "b"]
+        elif shape == "mixed2":
+            pairs, lneed, rneed = [("b", "c"), ("a", "a")], ["a", "b"], ["a", "c"]
+        else:
+            n = rng.choice([1, 2, 2, 3])
+            la, ra = rng.sample(pool, n), rng.sample(pool, n)
+            pairs, lneed, rneed = list(zip(la, ra)), list(la), list(ra)
+        lcols = lneed + [c for c in pool if c not in lneed and rng.random() < 0.6]
+        rcols = rneed + [c for c in pool if c not in rneed and rng.random() < 0.6]
+        shared = [("s", rng.choice(["int", "float", "str"]))] if rng.random() < 0.4 else []
+        lspec = [(c, kt) for c in lcols] + shared + [("x", "float")]
+        rspec = [(c, kt) for c in rcols] + shared + [("y", "float")]
+        rng.shuffle(lspec); rng.shuffle(rspec)
+        d1 = mk_table(rng, "d1", lspec, rng.choice([1, 2, 3, 4]), rng.choice([0.0, 0.2, 0.4]), uid="lid")
+        d2 = mk_table(rng, "d2", rspec, rng.choice([1, 2, 3, 4]), rng.choice([0.0, 0.2, 0.4]), uid="rid")
+        if rng.random() < 0.5:                        # make matches likely: copy key tuples of the left into the right
+            ln, rn = [c for c, _ in d1["spec"]], [c for c, _ in d2["spec"]]
+            for r in d2["rows"]:
+                if rng.random() < 0.6:
+                    src = rng.choice(d1["rows"])
+                    for a, b in pairs:
+                        r[rn.index(b)] = src[ln.index(a)]
+        if rng.random() < 0.3:
+            for d, ks in ((d1, [a for a, _ in pairs]), (d2, [b for _, b in pairs])):
+                names = [c for c, _ in d["spec"]]
+                rng.choice(d["rows"])[names.index(rng.choice(ks))] = None
+        jt = rng.choice(["INNER", "LEFT", "RIGHT", "FULL"])
+        s = {"op": "natural_join", "src": T("d1"), "b": T("d2"), "on": [[a, b] for a, b in pairs], "jointype": jt}
+        return s, [d1, d2], {"kind": "join", "lk": [a for a, _ in pairs], "rk": [b for _, b in pairs],
+                             "shared": sorted((set(lcols) & set(rcols)) | {c for c, _ in shared}), "jointype": jt, "keyshape": shape}
     if kind == "join_overlap":
         # a left key name that is also a non-key column of the right table (the former finding C16-pandas-overlap-leftover-column,
         # fixed by /repo 756a9c2): the suffixed copy must be folded back like every other shared column
@@ -1011,7 +1055,7 @@ def run(chk):
                        "multiset, and is skipped when it also violates the theorems' premises (a later step may then depend on the row order)",
                        "set iteration order is not modelled: a project with >= 2 group columns is compared by column NAME"]
     chk.cov["rule"] = ("random pipelines (harness/pipes.py grammar, depth 1..4, 2 tables, nulls, duplicates, empty tables) + targeted shapes (joins with same / "
-                       "different key names, multi-column and empty `on`, CROSS, shared non-key columns, null keys on both sides (marker-column path), a left key that is a right non-key column, empty sides; projects with null-heavy keys, no ops, constants, "
+                       "different key names, crossed / chained / overlapping / mixed same-named + renamed key pairs over names both tables have, multi-column and empty `on`, CROSS, shared non-key columns, null keys on both sides (marker-column path), a left key that is a right non-key column, empty sides; projects with null-heavy keys, no ops, constants, "
                        "empty input; windowed extends over 0..2 partition columns with total orders and 13 functions incl. constant arguments and self-overwrite; "
                        "extends on narrow frames (both column-copy paths); concat with an empty side / id column; order_rows with limits) + per-primitive cases; "
                        "non-trivial = result has rows or the executor raised; distinct by script + tables")
@@ -1040,10 +1084,10 @@ def run(chk):
         c = X.gen_case(rng, depth=(1, 4) if chk.tier == "quick" else (1, 6), ntables=2, null_rate=rng.choice([0.1, 0.25]))
         if c is not None:
             cases.append((c, {"kind": "random"}))
-    for kind in TARGETS + ["join_overlap"]:
+    for kind in TARGETS + ["join_overlap", "join_keys"]:
         k = 0
         tries = 0
-        want = N_TARGET[chk.tier] if kind != "join_overlap" else max(6, N_TARGET[chk.tier] // 4)
+        want = {"join_overlap": max(6, N_TARGET[chk.tier] // 4), "join_keys": max(14, N_TARGET[chk.tier] // 2), "join": max(20, (2 * N_TARGET[chk.tier]) // 3)}.get(kind, N_TARGET[chk.tier])
         while k < want and tries < want * 10:
             tries += 1
             try:
@@ -1068,6 +1112,8 @@ def run(chk):
                 chk.dist("join_null_key_marker_path")
             if info.get("overlap"):
                 chk.dist("join_left_key_is_right_non_key")
+            if info.get("keyshape"):
+                chk.dist("join_keyshape_" + info["keyshape"])
         if len(chk.cov["samples"]) < 4 and kind != "random":
             chk.sample({"case": c.json(), "info": info})
         # oracles on the real code
